@@ -643,6 +643,137 @@ fn split_by_markup(fe: &str) -> Vec<String> {
     v
 }
 
+/// Unusual literals: lexable constructs far beyond the sizes that tests use — `0x` literals of 15..40 hex
+/// digits (u64 overflows at 17), digit runs of 20..400, huge exponents, long thousands groups, dotted
+/// initialisms of 50/150 letters, 300-char URLs / e-mail addresses / hostnames, 300-fold punctuation,
+/// long hyphen / apostrophe chains.
+fn unusual_literals(r: &mut Rng) -> Vec<String> {
+    let mut v: Vec<String> = vec![];
+    const HEX: &[char] = &['0', '1', '2', '3', '4', '5', '6', '7', '8', '9', 'a', 'b', 'c', 'd', 'e', 'f', 'A', 'B', 'C', 'D', 'E', 'F'];
+    for n in 15..=40usize {
+        let mut h = String::from("0x");
+        for _ in 0..n {
+            h.push(*r.pick(HEX));
+        }
+        v.push(h);
+    }
+    v.push("0x52908400098527886E0F7030069857D2E4169EE7".into());
+    v.push(format!("0x{}", "F".repeat(16)));
+    v.push(format!("0x{}", "f".repeat(17)));
+    v.push(format!("0X{}", "1".repeat(20)));
+    v.push(format!("0x{}th", "9".repeat(18)));
+    for n in [20usize, 40, 100, 400] {
+        let d: String = (0..n).map(|i| char::from(b'0' + ((i * 7 + 1) % 10) as u8)).collect();
+        v.push(d.clone());
+        v.push(format!("1.{d}"));
+        v.push(format!("{d}.5"));
+        v.push(format!("{d}th"));
+        v.push(format!("{d}s"));
+        v.push(format!("${d}"));
+        v.push(format!("1e{n}"));
+        v.push(format!("1e-{n}"));
+        v.push(format!("1{}", ",000".repeat(n / 4)));
+        v.push(format!("{d}%"));
+    }
+    for n in [50usize, 150] {
+        v.push((0..n).map(|i| format!("{}.", char::from(b'a' + (i % 26) as u8))).collect::<String>());
+        v.push((0..n).map(|i| format!("{}.", char::from(b'A' + (i % 26) as u8))).collect::<String>());
+        v.push("e.g.".repeat(n));
+        v.push("a-".repeat(n) + "a");
+        v.push("a'".repeat(n) + "a");
+        v.push("n't".repeat(n));
+        v.push("a.b".repeat(n));
+    }
+    let long = "abcdefghij".repeat(30);
+    v.push(format!("https://{long}.com/{long}?{long}={long}#{long}"));
+    v.push(format!("http://a.b/{}", "%41".repeat(100)));
+    v.push(format!("https://{}", "a.".repeat(150)));
+    v.push(format!("{long}@{long}.com"));
+    v.push(format!("a@{}com", "b.".repeat(150)));
+    v.push(format!("{}@b.c", "a.".repeat(150)));
+    v.push(format!("a@b.c{}", "@b.c".repeat(80)));
+    v.push(format!("{}.{}.{}.org", &long[..100], &long[..100], &long[..100]));
+    v.push(format!("@{long}"));
+    v.push(format!("#{long}"));
+    for p in ["!", "?", ".", ",", "'", "\"", "-", "…", "“", "’", "(", ")", "$", "%", "@", "&", "/", "\\", ":", ";"] {
+        v.push(p.repeat(300));
+    }
+    v.push("\"a ".repeat(150));
+    v.push("(a ".repeat(150));
+    v
+}
+
+/// Deeply nested markup for this front-end (every nesting construct, depth 32 and 200; code-level nesting
+/// for the tree-sitter languages only at depth 48 and never for Dart, see F32).
+fn deep_nesting(fe: &str) -> Vec<String> {
+    let base = fe.split('+').next().unwrap();
+    let mut v = vec![];
+    let nest = |open: &str, close: &str, d: usize| format!("{}teh{}", open.repeat(d), close.repeat(d));
+    let md: &[(&str, &str)] = &[(">", ""), ("> ", ""), ("- ", ""), ("* ", ""), ("1. ", ""), ("[", "](x)"), ("![", "](x)"), ("*", "*"), ("**", "**"), ("_", "_"), ("~~", "~~"), ("`", "`"), ("<b>", "</b>"), ("<div>\n", "\n</div>"), ("[[", "]]"), ("$", "$"), ("(", ")"), ("{", "}"), ("\"", "\""), ("#", "")];
+    let html: &[(&str, &str)] = &[("<b>", "</b>"), ("<div>", "</div>"), ("<ul><li>", "</li></ul>"), ("<p>", ""), ("<", ">"), ("<!--", "-->"), ("<a href='", "'>"), ("&", ";"), ("<table><tr><td>", "</td></tr></table>")];
+    let typst: &[(&str, &str)] = &[("#[", "]"), ("*", "*"), ("_", "_"), ("#emph[", "]"), ("#(", ")"), ("#{", "}"), ("$", "$"), ("- ", ""), ("+ ", ""), ("/ ", ": "), ("= ", ""), ("[", "]"), ("#f(", ")"), ("#text(fill: red)[", "]"), ("\"", "\"")];
+    let depths: &[usize] = if base == "typst" { &[32, 64] } else { &[32, 200] };
+    match base {
+        "plain" => {
+            for (o, c) in [("(", ")"), ("\"", "\""), ("'", "'"), ("[", "]")] {
+                v.push(nest(o, c, 200));
+            }
+        }
+        "html" => {
+            for (o, c) in html {
+                for d in depths {
+                    v.push(nest(o, c, *d));
+                    v.push(format!("{}teh", o.repeat(*d)));
+                }
+            }
+        }
+        "typst" => {
+            for (o, c) in typst {
+                for d in depths {
+                    v.push(nest(o, c, *d));
+                    v.push(format!("{}teh", o.repeat(*d)));
+                }
+            }
+        }
+        "markdown" | "markdown-ilt" | "gitcommit" | "lhaskell" => {
+            for (o, c) in md {
+                for d in depths {
+                    v.push(nest(o, c, *d));
+                    v.push(format!("{}teh", o.repeat(*d)));
+                }
+            }
+            // nested lists / quotes by indentation
+            v.push((0..40).map(|i| format!("{}- teh item\n", "  ".repeat(i))).collect());
+            v.push((0..40).map(|i| format!("{} teh quote\n", ">".repeat(i + 1))).collect());
+        }
+        other => {
+            let lang = other.strip_prefix("c:").unwrap_or(other);
+            for (i, (o, c)) in md.iter().enumerate() {
+                v.push(comment_wrap(lang, &nest(o, c, 32), i));
+                if i % 4 == 0 {
+                    v.push(comment_wrap(lang, &format!("{}teh", o.repeat(200)), i + 1));
+                }
+            }
+            for (o, c) in [("{@link ", "}"), ("{@code ", "}"), ("@param ", ""), ("<p>", "</p>")] {
+                v.push(comment_wrap(lang, &nest(o, c, 48), 2));
+            }
+            if lang != "dart" {
+                for (o, c) in [("(", ")"), ("[", "]"), ("{", "}"), ("f(", ")"), ("/*", "*/"), ("\"", "\"")] {
+                    v.push(format!("{} // teh\n", nest(o, c, 48)));
+                }
+            }
+        }
+    }
+    v
+}
+
+/// `#!` lines that contain non-ASCII characters, followed by short comment text (the comment lines merged
+/// with the shebang are shorter than the line's excess of UTF-8 bytes over characters).
+const SHEBANGS: &[&str] = &[
+    "#!/bin/sh ééééé\n# ok", "#!/home/jürgen/büro/größe/bin/zsh\n# teh comment", "#!/usr/bin/env python3 # 😀😀\n#\n# x", "#!é\n#", "#!😀\n# a\n\nx = 1 # teh",
+    "#!/usr/bin/env node é漢字\n// ok", "#!/bin/sh\n# é", "#!ééé", "#! é\r\n# teh", "#!/bin/漢字漢字漢字漢字\n#!\n# teh\n",
+];
+
 fn prefixes(text: &str) -> Vec<String> {
     let cs: Vec<char> = text.chars().collect();
     let mut out = vec![];
@@ -715,6 +846,36 @@ fn generate(a: &Args, r: &mut Rng) -> Vec<Case> {
             }
             let m = nonascii_mutate(&t, r);
             push(&mut cases, fe, m, "non-ascii-mutated", r, false);
+        }
+        // 1d. unusual literals (long hex / digit runs / initialisms / URLs / punctuation) and deep nesting
+        for (i, t) in unusual_literals(r).into_iter().enumerate() {
+            let lang = fe.split('+').next().unwrap().strip_prefix("c:");
+            let place = |x: String| match lang {
+                Some(l) => comment_wrap(l, &x, i),
+                None => x,
+            };
+            push(&mut cases, fe, place(t.clone()), "unusual-literal", r, false);
+            if !wrapped {
+                push(&mut cases, fe, place(format!("See {t} here.")), "unusual-literal", r, false);
+                push(&mut cases, fe, place(format!("the {t}\n")), "unusual-literal", r, false);
+            }
+        }
+        for t in deep_nesting(fe) {
+            push(&mut cases, fe, t, "deep-nesting", r, false);
+        }
+        // 1e. non-ASCII shebang lines + short comments, every prefix (comment languages)
+        if fe.starts_with("c:") {
+            let hash = matches!(fe.split('+').next().unwrap(), "c:python" | "c:ruby" | "c:toml" | "c:shellscript" | "c:cmake" | "c:nix" | "c:php" | "c:javascript" | "c:typescript" | "c:rust");
+            for t in SHEBANGS {
+                if hash && !wrapped {
+                    for p in prefixes(t) {
+                        push(&mut cases, fe, p, "shebang-non-ascii", r, false);
+                    }
+                } else {
+                    push(&mut cases, fe, t.to_string(), "shebang-non-ascii", r, false);
+                    push(&mut cases, fe, format!("{t}\n"), "shebang-non-ascii", r, false);
+                }
+            }
         }
         // 2. generated documents
         let n_docs = if wrapped { a.scale(8, 120) } else { a.scale(30, 500) };
